@@ -155,6 +155,24 @@ func checkWiring(o *scen.GraphObs, r graphRef, identity bool) []string {
 	return bad
 }
 
+// shortcutView returns the program as the reference sees it: a node whose creation a processor
+// short-cuts from before-instantiation is published unpopulated, i.e. it has no injection points.
+func shortcutView(p *scen.GraphProg) (*scen.GraphProg, []bool) {
+	sc := make([]bool, p.N)
+	q := *p
+	q.Edges = make([][]int, p.N)
+	for i := range q.Edges {
+		q.Edges[i] = append([]int{}, p.Edges[i]...)
+		if len(p.Wrap) > i && (p.Wrap[i] == scen.WrapInstSelf || p.Wrap[i] == scen.WrapInst) {
+			sc[i] = true
+			for j := range q.Edges[i] {
+				q.Edges[i][j] = scen.ENone
+			}
+		}
+	}
+	return &q, sc
+}
+
 func describe(v any) string {
 	if b := scen.NodeOf(v); b != nil {
 		return fmt.Sprintf("%T(%s)", v, b.Nm)
